@@ -103,6 +103,12 @@ func NewJsonNode(n interface{}) (JsonNode, error) {
 		return jsonNumber(t), nil
 	case int:
 		return jsonNumber(t), nil
+	case int64:
+		// YAML integers that do not fit an int
+		return jsonNumber(t), nil
+	case uint64:
+		// YAML integers above the int64 range
+		return jsonNumber(t), nil
 	case string:
 		return jsonString(t), nil
 	case bool:
